@@ -90,6 +90,9 @@ func validateHarness(nb *nativeBuilder, ex *Exec, loaded *Loaded, u unit, n int,
 		for _, v := range viols {
 			switch v.Kind {
 			case "assert":
+				if v.Dirty {
+					ghost = true
+				}
 				engineFail[v.Msg] = true
 			case "panic":
 				enginePanic = true
